@@ -1470,6 +1470,29 @@ Tokens""")]),
         )
 """, """    (lambda params: intermediate_repr.__setitem__("returns", OrderedDict((("return_type", params.pop("return_type")),))) if "return_type" in params else None)(intermediate_repr["params"])
 """)]),
+    dict(id="livetype-helper-writes-name-of-anything", kind=B, props=["C19", "C07"], expect="LIVE-TYPE", edits=[("parser_utils.py",
+         """def _inspect_process_ir_param(param, sig):""", """def _annotation_text(annotation):
+    name = getattr(annotation, "__name__", None)
+    if name:
+        return name
+    return "{!s}".format(annotation)
+
+
+def _inspect_process_ir_param(param, sig):"""), ("parser_utils.py",
+         """            sig_param.annotation.__name__
+            if isinstance(sig_param.annotation, type)
+            else "{!s}".format(sig_param.annotation)""", """            _annotation_text(sig_param.annotation)""")]),
+    dict(id="livetype-neutral-helper-with-early-return", kind=N, props=["C19", "C07"], expect="silent", edits=[("parser_utils.py",
+         """def _inspect_process_ir_param(param, sig):""", """def _annotation_text(annotation):
+    if isinstance(annotation, type):
+        return annotation.__name__
+    return "{!s}".format(annotation)
+
+
+def _inspect_process_ir_param(param, sig):"""), ("parser_utils.py",
+         """            sig_param.annotation.__name__
+            if isinstance(sig_param.annotation, type)
+            else "{!s}".format(sig_param.annotation)""", """            _annotation_text(sig_param.annotation)""")]),
     # ---- JOIN-SOURCE (C19)
     dict(id="joinsource-imports-glued", kind=B, props=["C19"], expect="JOIN-SOURCE", edits=[("gen.py",
          """            imports = "\\n".join(
